@@ -115,6 +115,7 @@ PROPS = {
         "units": [
             R("h23", "c03", "TestC03_Head", (20000, 8), (500000, 16, 3000)),
             R("h23", "c03", "TestC03_PublisherHead", (3000, 2), (100000, 8, 3000)),
+            R("h23", "c03", "TestC03_PublisherConcurrent", (300, 4, 600), (30000, 16, 3000)),
             R("h26", "c03w", "TestC03_Subscriber", (4000, 8, 1500), (300000, 16, 10000)),
         ],
         "fuzz": [{"mod": "h23", "pkg": "c03", "target": "FuzzC03_Head", "secs": 300}],
@@ -132,6 +133,7 @@ PROPS = {
             R("h26", "c02", "TestC02_Random", (3000, 8, 1500), (300000, 16, 10000)),
             E("h26", "c02", "TestC02_Exhaustive", (8, 1500), (16, 10000)),
             R("h26", "c02", "TestC02_Concurrent", (600, 4, 600), (60000, 16, 10000)),
+            E("h26", "c02", "TestC02_Sizes", (8, 900), (16, 10000)),
         ],
     },
     "C04": {
